@@ -3,8 +3,8 @@ From Coq Require Import ZArith NArith List Bool Lia.
 From Texel Require Import Chess.Types Chess.Position Chess.PositionSpec Chess.PositionFacts
   Chess.PositionProofs Chess.PositionProofs2 Chess.PositionProofs3
   Chess.Fen Chess.Spec Chess.BitBoard Chess.MoveGen Chess.MoveGenWF Chess.MoveGenProofs
-  Chess.BitBoardProofs Chess.AttackProofs gen.BitBoardTables
-  RevGen.RevGen RevGen.RevFacts RevGen.RevCand RevGen.RevRaw RevGen.RevPawn RevGen.RevCons.
+  Chess.BitBoardProofs Chess.AttackProofs Chess.SliderProofs gen.BitBoardTables
+  RevGen.RevGen RevGen.RevFacts RevGen.RevValid RevGen.RevCand RevGen.RevRaw RevGen.RevPawn RevGen.RevCons.
 Import ListNotations.
 Local Open Scope N_scope.
 
@@ -112,7 +112,7 @@ Qed.
 Definition loopPiece (g : square -> N) (pr : square -> piece) (skip : square -> bool) (sq : square) : list move :=
   if skip sq then [] else revAddMovesByMask [] (g sq) sq (pr sq).
 
-Lemma revLoopGen_eq g pr skip mask l :
+Lemma revLoopGen_eq (g : square -> N) (pr : square -> piece) (skip : square -> bool) mask l :
   forSquares mask (fun l sq => if skip sq then l else revAddMovesByMask l (g sq) sq (pr sq)) l =
   l ++ flat_map (loopPiece g pr skip) (bitsOf bbFuel mask).
 Proof.
@@ -125,7 +125,7 @@ Proof.
   unfold loopPiece. destruct (skip sq); [intros []|]. intro H. apply revAdd_to in H. destruct H as [[]|(A & B)]. auto.
 Qed.
 
-Lemma revLoopGen_NoDup g pr skip mask :
+Lemma revLoopGen_NoDup (g : square -> N) (pr : square -> piece) (skip : square -> bool) mask :
   mask < 2 ^ 64 -> (forall sq, N.testbit mask sq = true -> skip sq = false -> g sq < 2 ^ 64) ->
   NoDup (flat_map (loopPiece g pr skip) (bitsOf bbFuel mask)).
 Proof.
@@ -136,10 +136,404 @@ Proof.
   - intros sq b _ Hb. apply (loopPiece_to g pr skip sq b Hb).
 Qed.
 
-Lemma loopPiece_bit g pr skip mask b : mask < 2 ^ 64 ->
+Lemma loopPiece_bit (g : square -> N) (pr : square -> piece) (skip : square -> bool) mask b : mask < 2 ^ 64 ->
   In b (flat_map (loopPiece g pr skip) (bitsOf bbFuel mask)) ->
   N.testbit mask (mto b) = true /\ mpromote b = pr (mto b) /\ skip (mto b) = false.
 Proof.
   intros Hm H. destruct (bits64_spec mask Hm) as (_ & Hin). apply in_flat_map in H. destruct H as (sq & Hs & Hb).
   destruct (loopPiece_to g pr skip sq b Hb) as (A & B & C). rewrite A. auto.
 Qed.
+
+Section Raw.
+Variable q : position.
+Hypothesis Hwf : WF q.
+Let wm := negb (whiteMove q).
+Let occ := occupiedBB q.
+Let BO : BoardOK q := WF_BoardOK q Hwf.
+
+(** the class of a raw move: the piece on its to-square, or 255 for an un-promotion *)
+Definition code (b : move) : N := if mpromote b =? EMPTY then getPiece q (mto b) else 255.
+
+Lemma app_codes (l P : list move) (c : N) :
+  NoDup l -> NoDup P -> (forall x, In x P -> code x = c) -> (forall x, In x l -> code x <> c) -> NoDup (l ++ P).
+Proof.
+  intros Hl HP Hc Hn. apply NoDup_app'; auto. intros x Hx Hx2. apply (Hn x Hx). apply Hc. exact Hx2.
+Qed.
+
+Lemma ptLt X : In X [WQUEEN; WROOK; WBISHOP; WKNIGHT; WKING; WPAWN] -> ptBB q (myPiece wm X) < 2 ^ 64.
+Proof. intro H. apply (BoardOK_ptBB_lt q _ BO). apply myPiece_codes. cbn [In] in *. tauto. Qed.
+
+(** a simple piece block: mask of the piece's squares (or a subset), from-mask g *)
+Definition blockList (mask : N) (g : square -> N) : list move :=
+  flat_map (loopPiece g (fun _ => EMPTY) (fun _ => false)) (bitsOf bbFuel mask).
+
+Lemma blockList_props X mask g :
+  In X [WQUEEN; WROOK; WBISHOP; WKNIGHT; WPAWN] -> mask < 2 ^ 64 ->
+  (forall sq, N.testbit mask sq = true -> N.testbit (ptBB q (myPiece wm X)) sq = true) ->
+  (forall sq, N.testbit mask sq = true -> g sq < 2 ^ 64) ->
+  NoDup (blockList mask g) /\ forall x, In x (blockList mask g) -> code x = myPiece wm X.
+Proof.
+  intros HX Hm Hsub Hg. split.
+  - apply revLoopGen_NoDup; [exact Hm | intros sq Hs _; apply Hg; exact Hs].
+  - intros x Hx. destruct (loopPiece_bit _ _ _ mask x Hm Hx) as (Hb & Hp & _).
+    unfold code. rewrite Hp, N.eqb_refl. apply Hsub in Hb.
+    rewrite (BoardOK_ptBB q _ _ BO) in Hb by (apply myPiece_codes; cbn [In] in *; tauto).
+    apply andb_true_iff in Hb. destruct Hb as (_ & Hb). apply N.eqb_eq in Hb. exact Hb.
+Qed.
+
+Lemma queen_eq l : revQueenBlock wm q l = l ++ blockList (ptBB q (myPiece wm WQUEEN)) (fun sq => andn (aQ q sq) occ).
+Proof. exact (revLoopGen_eq (fun sq => andn (aQ q sq) occ) (fun _ => EMPTY) (fun _ => false) _ l). Qed.
+Lemma rook_eq l : revRookBlock wm q l = l ++ blockList (revRookSquares wm q) (fun sq => andn (aR q sq) occ).
+Proof. exact (revLoopGen_eq (fun sq => andn (aR q sq) occ) (fun _ => EMPTY) (fun _ => false) _ l). Qed.
+Lemma bishop_eq l : revBishopBlock wm q l = l ++ blockList (ptBB q (myPiece wm WBISHOP)) (fun sq => andn (aB q sq) occ).
+Proof. exact (revLoopGen_eq (fun sq => andn (aB q sq) occ) (fun _ => EMPTY) (fun _ => false) _ l). Qed.
+Lemma knight_eq l : revKnightBlock wm q l = l ++ blockList (ptBB q (myPiece wm WKNIGHT)) (fun sq => andn (aN sq) occ).
+Proof. exact (revLoopGen_eq (fun sq => andn (aN sq) occ) (fun _ => EMPTY) (fun _ => false) _ l). Qed.
+Lemma pawn_eq l : revPawnBlock wm q l = l ++ blockList (ptBB q (myPiece wm WPAWN)) (fun sq => revPawnFromMask wm occ sq).
+Proof. exact (revLoopGen_eq (fun sq => revPawnFromMask wm occ sq) (fun _ => EMPTY) (fun _ => false) _ l). Qed.
+
+Lemma bitLt k : k < 64 -> bit k < 2 ^ 64.
+Proof. intro H. unfold bit. rewrite N.shiftl_1_l. apply N.pow_lt_mono_r; lia. Qed.
+Lemma bitAtLt s dz : (Z.of_N s + dz < 64)%Z -> bitAt s dz < 2 ^ 64.
+Proof. intro H. unfold bitAt, sqAdd. apply bitLt. lia. Qed.
+Lemma lorLt a b : a < 2 ^ 64 -> b < 2 ^ 64 -> N.lor a b < 2 ^ 64.
+Proof.
+  intros A B. apply lt_2_64_of_bits. intros i Hi. rewrite N.lor_spec in Hi. apply orb_true_iff in Hi.
+  destruct Hi as [Hi|Hi]; [apply (bits_below_64 a A i Hi) | apply (bits_below_64 b B i Hi)].
+Qed.
+
+(** no pawn on the first or last rank *)
+Lemma edge_no_pawn s : s < 64 -> (s < 8 \/ 56 <= s) -> isPawnPiece (getPiece q s) = false.
+Proof.
+  intros Hs He. destruct (WF_parts q Hwf) as (_ & _ & _ & _ & Ha).
+  unfold accepted in Ha. cbv zeta in Ha. rewrite !andb_true_iff in Ha.
+  destruct Ha as (((((((((((_ & _) & _) & _) & Hp) & _) & _) & _) & _) & _) & _) & _).
+  rewrite forallb_forall in Hp. cbn [abs sp_board] in Hp.
+  assert (Hin : In (zf s) [0; 1; 2; 3; 4; 5; 6; 7]%Z).
+  { unfold zf. assert (0 <= Z.of_N s mod 8 < 8)%Z by (apply Z.mod_pos_bound; lia). cbn [In]. lia. }
+  specialize (Hp _ Hin). rewrite !andb_true_iff, !negb_true_iff in Hp. destruct Hp as (((H1 & H2) & H3) & H4).
+  rewrite (getPiece_at q s Hs). unfold isPawnPiece.
+  unfold is_piece, mk_piece in H1, H2, H3, H4.
+  destruct He as [He|He].
+  - assert (zr s = 0%Z) by (unfold zr; apply Z.div_small; lia). rewrite H. rewrite H1, H2. reflexivity.
+  - assert (zr s = 7%Z) by (unfold zr; pose proof (Z.div_mod (Z.of_N s) 8 ltac:(lia)); pose proof (Z.mod_pos_bound (Z.of_N s) 8 ltac:(lia)); lia).
+    rewrite H. rewrite H3, H4. reflexivity.
+Qed.
+
+Lemma pawnMask_lt sq : N.testbit (ptBB q (myPiece wm WPAWN)) sq = true -> revPawnFromMask wm occ sq < 2 ^ 64.
+Proof.
+  intro Hb. rewrite (BoardOK_ptBB q _ sq BO) in Hb by (apply myPiece_codes; cbn; tauto).
+  apply andb_true_iff in Hb. destruct Hb as (Hs & Hp). apply N.ltb_lt in Hs. apply N.eqb_eq in Hp.
+  assert (Hmid : 8 <= sq < 56).
+  { assert (Hpp : isPawnPiece (getPiece q sq) = true) by (rewrite Hp; generalize wm; intros []; reflexivity).
+    destruct (N.lt_ge_cases sq 8) as [A|A]; [rewrite (edge_no_pawn sq Hs (or_introl A)) in Hpp; discriminate|].
+    destruct (N.lt_ge_cases sq 56) as [B|B]; [lia|]. rewrite (edge_no_pawn sq Hs (or_intror B)) in Hpp. discriminate. }
+  destruct (row_facts sq Hs) as (_ & _ & Lb & Lw).
+  unfold revPawnFromMask, andn. apply ldiff_lt.
+  generalize wm. intros [].
+  - assert (B8 : bitAt sq (-8) < 2 ^ 64) by (apply bitAtLt; lia).
+    assert (B16 : bitAt sq (-16) < 2 ^ 64) by (apply bitAtLt; lia).
+    assert (HM0 : N.ldiff (N.lor (bPawnAttacks sq) (bitAt sq (-8))) maskRow1 < 2 ^ 64) by (apply ldiff_lt, lorLt; assumption).
+    destruct (sqY sq =? 3); [destruct (_ =? 0)|]; [apply lorLt; assumption | exact HM0 | exact HM0].
+  - assert (B8 : bitAt sq 8 < 2 ^ 64) by (apply bitAtLt; lia).
+    assert (HM0 : N.ldiff (N.lor (wPawnAttacks sq) (bitAt sq 8)) maskRow8 < 2 ^ 64) by (apply ldiff_lt, lorLt; assumption).
+    destruct (sqY sq =? 4) eqn:E4; [destruct (_ =? 0)|]; [|exact HM0 | exact HM0].
+    apply lorLt; [exact HM0|]. apply N.eqb_eq in E4. unfold sqY in E4. apply bitAtLt.
+    pose proof (N.div_mod sq 8 ltac:(lia)). pose proof (N.mod_lt sq 8 ltac:(lia)). lia.
+Qed.
+
+(** un-promotions *)
+Definition promoMask : N := N.land (colorBB q wm) (if wm then maskRow8 else maskRow1).
+Definition promoG (sq : square) : N :=
+  andn (if wm then N.lor (bPawnAttacks sq) (bitAt sq (-8)) else N.lor (wPawnAttacks sq) (bitAt sq 8)) occ.
+Definition promoSkip (sq : square) : bool := (getPiece q sq =? WKING) || (getPiece q sq =? BKING).
+Definition promoList : list move := flat_map (loopPiece promoG (fun sq => getPiece q sq) promoSkip) (bitsOf bbFuel promoMask).
+
+Lemma promo_eq l : revPromoBlock wm q l = l ++ promoList.
+Proof. exact (revLoopGen_eq promoG (fun sq => getPiece q sq) promoSkip _ l). Qed.
+
+Lemma colorLt : colorBB q wm < 2 ^ 64.
+Proof.
+  apply lt_2_64_of_bits. intros i Hi. rewrite (BoardOK_color q wm i BO) in Hi. apply andb_true_iff in Hi.
+  destruct Hi as (Hi & _). apply N.ltb_lt. exact Hi.
+Qed.
+
+Lemma promoList_props : NoDup promoList /\ forall x, In x promoList -> code x = 255.
+Proof.
+  assert (Hm : promoMask < 2 ^ 64) by (apply land_lt_l, colorLt).
+  split.
+  - apply revLoopGen_NoDup; [exact Hm|]. intros sq Hs _. unfold promoMask in Hs. rewrite N.land_spec in Hs.
+    apply andb_true_iff in Hs. destruct Hs as (Hc & Hr).
+    assert (Hs64 : sq < 64) by (apply (bits_below_64 _ colorLt sq Hc)).
+    destruct (row_facts sq Hs64) as (R1 & R8 & Lb & Lw).
+    unfold promoG, andn. apply ldiff_lt. revert Hr. generalize wm. intros [] Hr.
+    + apply lorLt; [exact Lb | apply bitAtLt; lia].
+    + apply lorLt; [exact Lw|]. rewrite R1 in Hr. apply Z.eqb_eq in Hr. apply bitAtLt. unfold zr in Hr.
+      pose proof (Z.div_mod (Z.of_N sq) 8 ltac:(lia)). pose proof (Z.mod_pos_bound (Z.of_N sq) 8 ltac:(lia)). lia.
+  - intros x Hx. destruct (loopPiece_bit _ _ _ promoMask x Hm Hx) as (Hb & Hp & _).
+    unfold promoMask in Hb. rewrite N.land_spec in Hb. apply andb_true_iff in Hb. destruct Hb as (Hb & _).
+    rewrite (BoardOK_color q wm _ BO) in Hb. apply andb_true_iff in Hb. destruct Hb as (_ & Hb).
+    unfold code. rewrite Hp. destruct (N.eqb_spec (getPiece q (mto x)) EMPTY) as [E|E]; [|reflexivity].
+    rewrite E in Hb. revert Hb. generalize wm. intros []; discriminate.
+Qed.
+
+(** king steps and un-castlings *)
+Let ks := kingSq q wm.
+Definition castleList (k0Sq kSq rSq : square) (em : N) : list move :=
+  if (ks =? kSq) && (getPiece q rSq =? myPiece wm WROOK) &&
+     ((N.land em occ =? 0) && negb (sqAttackedT wm q k0Sq occ) && negb (sqAttackedT wm q rSq occ))
+  then revAddMovesByMask [] (bit k0Sq) kSq EMPTY else [].
+
+Lemma castle_eq k0Sq kSq rSq em l : revCastleClause wm q occ ks k0Sq kSq rSq em l = l ++ castleList k0Sq kSq rSq em.
+Proof.
+  unfold revCastleClause, castleList. destruct ((ks =? kSq) && (getPiece q rSq =? myPiece wm WROOK)); cbn [andb]; [|rewrite app_nil_r; reflexivity].
+  destruct (_ && _); [apply revAdd_app | rewrite app_nil_r; reflexivity].
+Qed.
+
+Definition kingList : list move :=
+  if negb (((ks =? E1) && (a1Castle q || h1Castle q)) || ((ks =? E8) && (a8Castle q || h8Castle q))) then
+    (revAddMovesByMask [] (andn (kingAttacks ks) occ) ks EMPTY ++
+     castleList (if wm then E1 else E8) (if wm then G1 else G8) (if wm then F1 else F8)
+                (if wm then N.lor (bit E1) (bit H1) else N.lor (bit E8) (bit H8))) ++
+    castleList (if wm then E1 else E8) (if wm then C1 else C8) (if wm then D1 else D8)
+               (if wm then N.lor (N.lor (bit A1) (bit B1)) (bit E1) else N.lor (N.lor (bit A8) (bit B8)) (bit E8))
+  else [].
+
+Lemma king_eq l : revKingBlock wm q l = l ++ kingList.
+Proof.
+  unfold revKingBlock, kingList. cbv zeta. fold ks occ. destruct (negb (_ || _)); [|rewrite app_nil_r; reflexivity].
+  rewrite castle_eq, castle_eq, (revAdd_app l). rewrite !app_assoc. reflexivity.
+Qed.
+
+Lemma castleList_elem k0Sq kSq rSq em x : k0Sq < 64 -> In x (castleList k0Sq kSq rSq em) -> x = mkMove k0Sq kSq EMPTY /\ ks = kSq.
+Proof.
+  intros Hk H. unfold castleList in H. destruct ((ks =? kSq) && _ && _) eqn:C; [|destruct H].
+  apply andb_true_iff in C. destruct C as (C & _). apply andb_true_iff in C. destruct C as (C & _). apply N.eqb_eq in C.
+  apply revAdd_In in H; [|apply bitLt; exact Hk]. destruct H as [[]|(s0 & Hb & ->)].
+  rewrite bit_bits in Hb. apply N.eqb_eq in Hb. subst s0. auto.
+Qed.
+
+Lemma castleList_NoDup k0Sq kSq rSq em : k0Sq < 64 -> NoDup (castleList k0Sq kSq rSq em).
+Proof. intro Hk. unfold castleList. destruct (_ && _ && _); [apply revAdd_NoDup, bitLt; exact Hk | constructor]. Qed.
+
+Lemma kingList_props : NoDup kingList /\ forall x, In x kingList -> code x = myPiece wm WKING.
+Proof.
+  destruct (kingSq_spec_B q wm BO (king_exists q wm Hwf)) as (Hk64 & Hkp). fold ks in Hk64, Hkp.
+  assert (HK : getPiece q ks = myPiece wm WKING) by (rewrite Hkp; generalize wm; intros []; reflexivity).
+  assert (Hk0 : (if wm then E1 else E8) < 64) by (generalize wm; intros []; cbv; reflexivity).
+  assert (Hstep : forall x, In x (revAddMovesByMask [] (andn (kingAttacks ks) occ) ks EMPTY) ->
+                  exists s0, N.testbit (kingAttacks ks) s0 = true /\ x = mkMove s0 ks EMPTY).
+  { intros x Hx. apply revAdd_In in Hx; [|apply ldiff_lt, kingAttacks_lt]. destruct Hx as [[]|(s0 & Hb & ->)].
+    unfold andn in Hb. rewrite N.ldiff_spec in Hb. apply andb_true_iff in Hb. exists s0. split; [apply Hb | reflexivity]. }
+  assert (Hnotstep : forall kSq, In kSq [G1; C1; G8; C8] -> N.testbit (kingAttacks kSq) (if kSq <? 32 then E1 else E8) = false).
+  { intros kSq H. cbn [In] in H. destruct H as [<-|[<-|[<-|[<-|[]]]]]; vm_compute; reflexivity. }
+  unfold kingList. destruct (negb (_ || _)); [|split; [constructor | intros x []]].
+  split.
+  - apply NoDup_app'; [apply NoDup_app' | | ].
+    + apply revAdd_NoDup. apply ldiff_lt, kingAttacks_lt.
+    + apply castleList_NoDup. exact Hk0.
+    + intros x Hx Hx2. destruct (Hstep x Hx) as (s0 & Hb & ->). apply (castleList_elem _ _ _ _ _ Hk0) in Hx2.
+      destruct Hx2 as (E & Eks). inversion E as [[E1' E2']]. revert Hb E1' Eks. generalize wm. intros [] Hb E1' Eks;
+        rewrite E1', Eks in Hb; vm_compute in Hb; discriminate.
+    + apply castleList_NoDup. exact Hk0.
+    + intros x Hx Hx2. apply (castleList_elem _ _ _ _ _ Hk0) in Hx2. destruct Hx2 as (E & Eks).
+      apply in_app_iff in Hx. destruct Hx as [Hx|Hx].
+      * destruct (Hstep x Hx) as (s0 & Hb & E2'). rewrite E2' in E. inversion E as [[E1' E3']]. revert Hb E1' Eks. generalize wm. intros [] Hb E1' Eks;
+          rewrite E1', Eks in Hb; vm_compute in Hb; discriminate.
+      * apply (castleList_elem _ _ _ _ _ Hk0) in Hx. destruct Hx as (_ & Eks2). rewrite Eks in Eks2. revert Eks2. generalize wm. intros []; discriminate.
+  - intros x Hx. unfold code. apply in_app_iff in Hx. destruct Hx as [Hx|Hx]; [apply in_app_iff in Hx; destruct Hx as [Hx|Hx]|].
+    + destruct (Hstep x Hx) as (s0 & _ & ->). cbn [mpromote mto]. exact HK.
+    + apply (castleList_elem _ _ _ _ _ Hk0) in Hx. destruct Hx as (-> & Eks). cbn [mpromote mto]. rewrite <- Eks. exact HK.
+    + apply (castleList_elem _ _ _ _ _ Hk0) in Hx. destruct Hx as (-> & Eks). cbn [mpromote mto]. rewrite <- Eks. exact HK.
+Qed.
+
+(** chaining the seven blocks: every block has its own class *)
+Lemma wm_cases : wm = true \/ wm = false.
+Proof. unfold wm. destruct (whiteMove q); auto. Qed.
+
+Definition codesIn (l : list move) (cs : list N) : Prop := forall x, In x l -> In (code x) cs.
+
+Lemma chain_step (l P : list move) (c : N) (cs : list N) :
+  NoDup l /\ codesIn l cs -> (NoDup P /\ forall x, In x P -> code x = c) -> ~ In c cs ->
+  NoDup (l ++ P) /\ codesIn (l ++ P) (c :: cs).
+Proof.
+  intros (Hl & Hc) (HP & HPc) Hn. split.
+  - apply (app_codes l P c Hl HP HPc). intros x Hx E. apply Hn. rewrite <- E. apply Hc. exact Hx.
+  - intros x Hx. apply in_app_iff in Hx. destruct Hx as [Hx|Hx]; [right; apply Hc; exact Hx | left; symmetry; apply HPc; exact Hx].
+Qed.
+
+Lemma slider_g_lt (f : square -> N) (mask : N) (X : piece) :
+  (forall sq, sq < 64 -> f sq < 2 ^ 64) ->
+  (forall sq, N.testbit mask sq = true -> N.testbit (ptBB q (myPiece wm X)) sq = true) ->
+  In X [WQUEEN; WROOK; WBISHOP; WKNIGHT; WKING; WPAWN] ->
+  forall sq, N.testbit mask sq = true -> andn (f sq) occ < 2 ^ 64.
+Proof.
+  intros Hf Hsub HX sq Hb. unfold andn. apply ldiff_lt. apply Hf.
+  apply Hsub in Hb. rewrite (BoardOK_ptBB q _ sq BO) in Hb by (apply myPiece_codes; destruct HX as [<-|[<-|[<-|[<-|[<-|[<-|[]]]]]]]; cbn; tauto).
+  apply andb_true_iff in Hb. apply N.ltb_lt. apply Hb.
+Qed.
+
+Lemma genNoUndo_NoDup : NoDup (genMovesNoUndoInfo q).
+Proof.
+  unfold genMovesNoUndoInfo. cbv zeta. fold wm.
+  rewrite promo_eq, pawn_eq, king_eq, knight_eq, bishop_eq, rook_eq, queen_eq.
+  assert (H0 : NoDup (@nil move) /\ codesIn [] []) by (split; [constructor | intros x []]).
+  assert (HQ := chain_step _ _ _ _ H0
+     (blockList_props WQUEEN _ (fun sq => andn (aQ q sq) occ) ltac:(cbn; tauto) (ptLt WQUEEN ltac:(cbn; tauto)) (fun sq H => H)
+        (slider_g_lt (aQ q) _ WQUEEN (fun sq H => lorLt _ _ (rookAttacks_lt sq occ H) (bishopAttacks_lt sq occ H)) (fun sq H => H) ltac:(cbn; tauto)))
+     (fun H => H)).
+  assert (HR := chain_step _ _ _ _ HQ
+     (blockList_props WROOK _ (fun sq => andn (aR q sq) occ) ltac:(cbn; tauto) (rookSquares_lt q BO) (rookSquares_sub q)
+        (slider_g_lt (aR q) _ WROOK (fun sq H => rookAttacks_lt sq occ H) (rookSquares_sub q) ltac:(cbn; tauto)))
+     ltac:(destruct wm_cases as [E|E]; rewrite E; cbn; intros [H|[]]; discriminate)).
+  assert (HB := chain_step _ _ _ _ HR
+     (blockList_props WBISHOP _ (fun sq => andn (aB q sq) occ) ltac:(cbn; tauto) (ptLt WBISHOP ltac:(cbn; tauto)) (fun sq H => H)
+        (slider_g_lt (aB q) _ WBISHOP (fun sq H => bishopAttacks_lt sq occ H) (fun sq H => H) ltac:(cbn; tauto)))
+     ltac:(destruct wm_cases as [E|E]; rewrite E; cbn; intros [H|[H|[]]]; discriminate)).
+  assert (HN := chain_step _ _ _ _ HB
+     (blockList_props WKNIGHT _ (fun sq => andn (aN sq) occ) ltac:(cbn; tauto) (ptLt WKNIGHT ltac:(cbn; tauto)) (fun sq H => H)
+        (slider_g_lt aN _ WKNIGHT (fun sq _ => proj2 (knightAttacks_lt sq)) (fun sq H => H) ltac:(cbn; tauto)))
+     ltac:(destruct wm_cases as [E|E]; rewrite E; cbn; intros [H|[H|[H|[]]]]; discriminate)).
+  assert (HK := chain_step _ _ _ _ HN kingList_props
+     ltac:(destruct wm_cases as [E|E]; rewrite E; cbn; intros [H|[H|[H|[H|[]]]]]; discriminate)).
+  assert (HP := chain_step _ _ _ _ HK
+     (blockList_props WPAWN _ (fun sq => revPawnFromMask wm occ sq) ltac:(cbn; tauto) (ptLt WPAWN ltac:(cbn; tauto)) (fun sq H => H) pawnMask_lt)
+     ltac:(destruct wm_cases as [E|E]; rewrite E; cbn; intros [H|[H|[H|[H|[H|[]]]]]]; discriminate)).
+  assert (HPr := chain_step _ _ _ _ HP promoList_props
+     ltac:(destruct wm_cases as [E|E]; rewrite E; cbn; intros [H|[H|[H|[H|[H|[H|[]]]]]]]; discriminate)).
+  exact (proj1 HPr).
+Qed.
+
+Lemma revMoveList_NoDup : NoDup (revMoveList q).
+Proof.
+  unfold revMoveList. cbv zeta. destruct (Z.eqb_spec (epSquare q) (-1)) as [E|E]; [exact genNoUndo_NoDup|].
+  apply revAdd_NoDup. fold wm.
+  destruct (WF_parts q Hwf) as (_ & _ & _ & _ & Hacc). apply accepted_epShape in Hacc.
+  destruct Hacc as [Hacc|(e & He & He64 & Hy & _)]; [exfalso; apply E; exact Hacc|].
+  cbn [abs sp_ep sp_white] in He, Hy. rewrite He, N2Z.id. apply bitAtLt.
+  unfold sqY in Hy. pose proof (N.div_mod e 8 ltac:(lia)). pose proof (N.mod_lt e 8 ltac:(lia)).
+  destruct wm_cases as [Ew|Ew]; rewrite Ew; [lia|].
+  unfold wm in Ew. apply negb_false_iff in Ew. rewrite Ew in Hy. lia.
+Qed.
+
+End Raw.
+
+(** * the UndoInfo alternatives of one un-move are pairwise different *)
+Fixpoint nodupb (l : list N) : bool :=
+  match l with
+  | [] => true
+  | x :: t => negb (existsb (N.eqb x) t) && nodupb t
+  end.
+Lemma nodupb_sound l : nodupb l = true -> NoDup l.
+Proof.
+  induction l as [|a l IH]; intro H; [constructor|]. cbn [nodupb] in H. apply andb_true_iff in H. destruct H as (H1 & H2).
+  constructor; [|apply IH; exact H2]. intro Hin. apply negb_true_iff in H1.
+  assert (X : existsb (N.eqb a) l = true) by (apply existsb_exists; exists a; split; [exact Hin | apply N.eqb_refl]).
+  rewrite X in H1. discriminate.
+Qed.
+Lemma castleAlt_nodup_sweep : forallb (fun a => nodupb (castleAlternatives a)) below16 = true.
+Proof. vm_compute. reflexivity. Qed.
+Lemma castleAlternatives_NoDup a : a < 16 -> NoDup (castleAlternatives a).
+Proof.
+  intro Ha. pose proof castleAlt_nodup_sweep as H. rewrite forallb_forall in H. apply nodupb_sound. apply H. apply below16_In. exact Ha.
+Qed.
+
+Lemma castleAlt_bound_sweep : forallb (fun a => forallb (fun c => c <? 16) (castleAlternatives a)) below16 = true.
+Proof. vm_compute. reflexivity. Qed.
+Lemma castleAlt_bound a c : a < 16 -> In c (castleAlternatives a) -> c < 16.
+Proof.
+  intros Ha Hc. pose proof castleAlt_bound_sweep as H. rewrite forallb_forall in H. specialize (H a (below16_In a Ha)).
+  rewrite forallb_forall in H. apply N.ltb_lt. apply H. exact Hc.
+Qed.
+
+Lemma epFiles_bits mask : epFiles mask = bitsOf bbFuel mask.
+Proof.
+  unfold epFiles, forSquares. rewrite (bbLoop_flat (fun f => [f])). cbn [app].
+  induction (bitsOf bbFuel mask) as [|a l IH]; cbn [flat_map app]; [reflexivity | rewrite IH; reflexivity].
+Qed.
+
+Lemma getEpMask_bits q m pc cap incl k : N.testbit (getEpMask q m pc cap incl) k = true -> k <= 8.
+Proof.
+  unfold getEpMask. cbv zeta.
+  set (w := negb (whiteMove q)). set (x := sqX (mto m)).
+  set (epCase := mustBeEpCapture m pc cap && (sqY (mto m) =? (if w then 5 else 2))).
+  assert (Hx : x < 8) by (unfold x, sqX; apply N.mod_lt; lia).
+  destruct (epCase && negb _); [rewrite N.bits_0; discriminate|].
+  set (M := if epCase then N.lor (if incl then 255 else 0) (bit x) else (if incl then 255 else 0)).
+  assert (HMb : forall i, N.testbit M i = true -> i < 8).
+  { intros i Hi. unfold M in Hi. assert (H255 : N.testbit (if incl then 255 else 0) i = true -> i < 8).
+    { destruct incl; [|rewrite N.bits_0; discriminate]. intro H. destruct (N.lt_ge_cases i 8) as [A|A]; [exact A|].
+      change 255 with (N.ones 8) in H. rewrite N.ones_spec_high in H by exact A. discriminate. }
+    destruct epCase; [|apply H255; exact Hi]. rewrite N.lor_spec in Hi. apply orb_true_iff in Hi. destruct Hi as [Hi|Hi]; [apply H255; exact Hi|].
+    rewrite bit_bits in Hi. apply N.eqb_eq in Hi. lia. }
+  assert (HM : M < 2 ^ 64) by (apply lt_2_64_of_bits; intros i Hi; apply HMb in Hi; lia).
+  destruct (negb (M =? 0)).
+  - intro H.
+    apply (epLoop_bits (epBoardBefore q m pc cap epCase x (if w then 4 else 3) (if w then BPAWN else WPAWN)) w M (bit 8) k HM) in H.
+    destruct H as [H|(H & _)]; [rewrite bit_bits in H; apply N.eqb_eq in H; lia | apply HMb in H; lia].
+  - rewrite bit_bits. intro H. apply N.eqb_eq in H. lia.
+Qed.
+
+Lemma epSquareOfFile_inj w a b : a <= 8 -> b <= 8 -> epSquareOfFile w a = epSquareOfFile w b -> a = b.
+Proof.
+  intros Ha Hb. unfold epSquareOfFile, mkSq.
+  destruct (N.eqb_spec a 8), (N.eqb_spec b 8); destruct w; lia.
+Qed.
+
+Lemma in_flat_map3 {A B C D} (f : A -> list B) (g : A -> B -> list C) (h : A -> B -> C -> list D) la x :
+  In x (flat_map (fun a => flat_map (fun b => flat_map (h a b) (g a b)) (f a)) la) ->
+  exists a b c, In a la /\ In b (f a) /\ In c (g a b) /\ In x (h a b c).
+Proof.
+  intro H. apply in_flat_map in H. destruct H as (a & Ha & H). apply in_flat_map in H. destruct H as (b & Hb & H).
+  apply in_flat_map in H. destruct H as (c & Hc & H). exists a, b, c. auto.
+Qed.
+
+Lemma candidatesFor_NoDup q incl m : NoDup (candidatesFor q incl m).
+Proof.
+  unfold candidatesFor. cbv zeta. set (w := negb (whiteMove q)). set (pc := movingPieceOf q m).
+  apply (NoDup_flat_map_key (fun um => u_captured (um_ui um)) (fun p0 => if w then makeBlack p0 else p0)).
+  - destruct w; vm_compute; repeat (constructor; [cbn; intros H; repeat (destruct H as [H|H]; [discriminate|]); exact H|]); constructor.
+  - intros p0 _. destruct (negb (validCapturePiece m pc p0)); [constructor|].
+    set (cap := if w then makeBlack p0 else p0). set (base := getBaseCastleMask q m pc).
+    set (add := andn (getCastleAddMask q m pc cap) base).
+    assert (Hadd : add < 16).
+    { apply lt16_of_bits. intros i Hi. unfold add, andn. rewrite N.ldiff_spec.
+      unfold getCastleAddMask, andn. cbv zeta. rewrite N.ldiff_spec, (bits16 _ i (maxCastleMask_lt _) Hi). reflexivity. }
+    apply (NoDup_flat_map_key (fun um => N.ldiff (u_castleMask (um_ui um)) base) (fun c => c)).
+    + apply NoDup_map_id. apply castleAlternatives_NoDup. exact Hadd.
+    + intros c _.
+      apply (NoDup_flat_map_key (fun um => u_epSquare (um_ui um)) (epSquareOfFile w)).
+      * assert (Hm : getEpMask q m pc cap incl < 2 ^ 64).
+        { apply lt_2_64_of_bits. intros i Hi. apply getEpMask_bits in Hi. lia. }
+        rewrite epFiles_bits. destruct (bits64_spec _ Hm) as (Hnd & Hin).
+        apply NoDup_map_inj; [|exact Hnd]. intros a b Ha Hb. apply epSquareOfFile_inj.
+        -- apply Hin in Ha. apply (getEpMask_bits _ _ _ _ _ _ Ha).
+        -- apply Hin in Hb. apply (getEpMask_bits _ _ _ _ _ _ Hb).
+      * intros f _. destruct (_ && _); [constructor | repeat constructor; intros []].
+      * intros f b _ Hb. destruct (_ && _); [destruct Hb|]. destruct Hb as [<-|[]]. reflexivity.
+    + intros c b Hc Hb. apply in_flat_map in Hb. destruct Hb as (f & _ & Hb).
+      destruct (_ && _); [destruct Hb|]. destruct Hb as [<-|[]]. cbn [um_ui u_castleMask].
+      assert (Hcc : c < 16).
+      { exact (castleAlt_bound add c Hadd Hc). }
+      apply (castleAlternatives_In add c Hadd Hcc) in Hc.
+      apply N.bits_inj. intro i. rewrite N.ldiff_spec, N.lor_spec.
+      destruct (N.testbit base i) eqn:Hb; [|rewrite andb_true_r; reflexivity].
+      cbn [orb negb andb]. rewrite <- Hc, N.land_spec. unfold add, andn. rewrite N.ldiff_spec, Hb. cbn [negb]. rewrite andb_false_r, andb_false_r. reflexivity.
+  - intros p0 b _ Hb. destruct (negb (validCapturePiece m pc p0)); [destruct Hb|].
+    apply in_flat_map in Hb. destruct Hb as (c & _ & Hb). apply in_flat_map in Hb. destruct Hb as (f & _ & Hb).
+    destruct (_ && _); [destruct Hb|]. destruct Hb as [<-|[]]. reflexivity.
+Qed.
+
+(** * the whole list *)
+Theorem candidates_NoDup q incl : WF q -> NoDup (candidates q incl).
+Proof.
+  intro Hwf. unfold candidates.
+  apply (NoDup_flat_map_key um_move (fun m => m)).
+  - apply NoDup_map_id. apply revMoveList_NoDup. exact Hwf.
+  - intros m _. apply candidatesFor_NoDup.
+  - intros m b _ Hb. apply candidatesFor_In in Hb. destruct Hb as (p0 & c & f & Hb). cbv zeta in Hb.
+    destruct Hb as (_ & _ & _ & _ & _ & ->). reflexivity.
+Qed.
+
+Theorem genMoves_NoDup zk q incl : WF q -> NoDup (genMoves zk q incl).
+Proof. intro Hwf. unfold genMoves. apply NoDup_filter. apply candidates_NoDup. exact Hwf. Qed.
